@@ -286,6 +286,15 @@ func TestZZVerif(t *testing.T) {
 		conf.Keys = []string{"only-key"}
 		env.attKey = "only-key"
 	}
+	nRestarts := 4
+	if tier == "thorough" {
+		nRestarts = 40
+	}
+	if prop == "C15" && len(conf.Sources) > 0 {
+		for j := 0; j <= nRestarts; j++ {
+			conf.Sources = append(conf.Sources, "rec"+strconv.Itoa(j))
+		}
+	}
 	env.sources, env.keys = conf.Sources, conf.Keys
 	// port
 	for try := 0; try < 30; try++ {
@@ -309,6 +318,11 @@ func TestZZVerif(t *testing.T) {
 		return
 	}
 	conf.Server.Port = env.port
+	var rec *zzRecMon
+	if prop == "C15" {
+		// leftovers of a crashed instance for source rec0, found by the server's start-up
+		rec = zzRecNew(env, rng, work)
+	}
 	app := &serverApp{conf: conf}
 	if err := app.init(); err != nil {
 		res.Inconclusive++
@@ -340,6 +354,10 @@ func TestZZVerif(t *testing.T) {
 		case <-time.After(3 * time.Second):
 		}
 	}()
+	if rec != nil {
+		close(rec.up)
+		rec.finish(rec.sc)
+	}
 
 	// ---- pre-existing content for the attacker's and the victim's source
 	seedFile := func(source, key, name string) {
@@ -396,6 +414,7 @@ func TestZZVerif(t *testing.T) {
 		zzC14(env, rng, per, variant)
 	case "C15":
 		zzC15(env, rng, per, variant)
+		rec.restarts(rng, work, nRestarts)
 	}
 	res.Completed = true
 }
